@@ -19,6 +19,7 @@ TParse == /\ Ev.e = "parse" /\ ~Ev.panic
           /\ Ev.blank => ~Ev.ok
           /\ Ev.ms <= Ev.budget_ms
           /\ Ev.unrepresentable => ~Ev.ok      \* a number no type can hold is an error, not a model with a hole
+          /\ Ev.ok => Ev.emit_ok               \* a model handed out without an error is whole: the emitter can write it out
 TNext == l <= Len(TraceLog) /\ (TGate \/ TParse) /\ l' = l + 1
 TSpec == TInit /\ [][TNext]_l
 HW == TLCSet(1, IF l > TLCGet(1) THEN l ELSE TLCGet(1))
